@@ -126,6 +126,24 @@ class Run:
             raise P.Inconclusive("%s failed for variant %s %s:\n%s" % (s, v.name, v.flags, v.gen_err if s == "gen" else v.build_err))
         variants = [v for v, s in zip(variants, st) if s == "ok"]
         self.build_div = build_div
+        # the leftRecursive / leader flags the generator decided (needed by the design model M, never by a verdict)
+        import re as _re
+        for v in variants:
+            if "-support-left-recursion" not in v.flags or any(getattr(g, "lrflags", None) for g in v.groups):
+                continue
+            try:
+                src = open(os.path.join(v.dir, "g.go")).read()
+            except OSError:
+                continue
+            names = _re.findall(r'\n\t\t\{\n\t\t\tname:\s+"(\w+)",', src)
+            fl = _re.findall(r'\n\t\t\tleader:\s+(true|false),\n\t\t\tleftRecursive:\s+(true|false),', src)
+            if len(names) != len(fl):
+                continue
+            tab = {nm: [b == "true", a == "true"] for nm, (a, b) in zip(names, fl)}      # [leftRecursive, leader]
+            for g in v.groups:
+                fr = [tab.get(g.rname(i + 1)) for i in range(len(g.rules))]
+                if all(x is not None for x in fr):
+                    g.lrflags = fr
 
         self.plans = {}
 
